@@ -105,12 +105,12 @@ class DiagGen:
             files[name] = target
             for _ in range(r.below(4)):
                 self.block(target, 1, files)
-        kind = r.weighted([('undefined', 5), ('runtime', 4), ('parse', 3), ('line', 4), ('trace', 3)])
+        kind = r.weighted([('undefined', 5), ('runtime', 4), ('parse', 3), ('line', 4), ('trace', 3), ('mlarg', 3)])
         indent = r.choice(['', ' ', '  ', '\t', '    ', '\t\t '])
         lead = r.choice(['', '', 'p = 1; ', 'q = [1,2]; r = 3; ', 'MLS', 't = "a""b"; ', "t = 'it''s'; ", 't = """" + "x"""; '])
         u = self.uid()
         line_no = len(target.lines) + 1
-        if lead == 'MLS' and kind == 'trace':
+        if lead == 'MLS' and kind in ('trace', 'mlarg'):
             lead = ''
         if lead == 'MLS':
             # a string that runs over a line end in front of the fault: the fault stands on the line the string ends on
@@ -134,8 +134,44 @@ class DiagGen:
             exp['positions'] = [(line_no, len(indent) + len(lead) + 8)]
             exp['code'] = 30015
         elif kind == 'line':
-            stmt = 'gl = [__LINE__, __FILE__];'
-            exp['gl'] = '[%d,"%s"]' % (line_no, ROOT + target.name)
+            # __LINE__ in the middle of a line, as the last thing on its line, and with a comment attached to it
+            form = r.below(4)
+            self.note('line-form:%d' % form)
+            if form == 0:
+                stmt = 'gl = [__LINE__, __FILE__];'
+                exp['gl'] = '[%d,"%s"]' % (line_no, ROOT + target.name)
+            elif form == 1:
+                stmt = 'gl = [__FILE__, __LINE__\n];'
+                exp['gl'] = '["%s",%d]' % (ROOT + target.name, line_no)
+            elif form == 2:
+                stmt = 'gl = [__LINE__// c\n, __FILE__];'
+                exp['gl'] = '[%d,"%s"]' % (line_no, ROOT + target.name)
+            else:
+                stmt = 'gl = [__LINE__\n, __LINE__\n];'
+                exp['gl'] = '[%d,%d]' % (line_no, line_no + 1)
+        elif kind == 'mlarg':
+            # an undefined variable inside the argument of a macro call that is broken across lines directly behind the
+            # opening parenthesis or a comma: the token stands on a later line than the call begins on (line only: the
+            # column of a token that went through an expansion is not claimed)
+            form = r.below(4)
+            self.note('mlarg-form:%d' % form)
+            target.add('#define PAIR%d(a,b) [a, b]' % u)
+            line_no += 1
+            ind2 = r.choice(['', '  ', '\t', '      '])
+            if form == 0:
+                stmt, dl = 'zz = PAIR%d(1,\n%sFAULT_%d);' % (u, ind2, u), 1
+            elif form == 1:
+                stmt, dl = 'zz = PAIR%d(\n%sFAULT_%d, 2);' % (u, ind2, u), 1
+            elif form == 2:
+                stmt, dl = 'zz = PAIR%d(1,\n\n%sFAULT_%d);' % (u, ind2, u), 2
+            else:
+                stmt, dl = 'zz = PAIR%d(\n%s1,\n%sFAULT_%d\n);' % (u, ind2, ind2, u), 2
+            exp['kind'] = 'undefined'
+            exp['positions'] = [(line_no + dl, None)]
+            exp['code'] = 60070
+            exp['nomodel'] = True
+            self.note('fault:mlarg')
+            kind = 'undefined'
         else:
             # a function defined on earlier lines of the same file, called from a code block
             stmt = 'fn = {\n%s  1 + "a"\n};\n%scall {\n%s   [] call fn;\n};' % (indent, indent, indent)
